@@ -29,10 +29,36 @@ def ens(buf):
     return [(n, p, t % {'buf': buf}) for (n, p, t) in TRY_ENS]
 
 
+def _slice_ens(inp, out_old, out_new):
+    W = 'wks_run(old(self).sstep(), old(self).score(), old(self).sbuf(), %s)' % inp
+    return [
+        ('wf_kept', P8, 'final(self).swf() && final(self).sstep() == old(self).sstep()'),
+        ('ok_iff_fits', P11, 'r is Ok <==> old(self).sfits(%s.len() as int)' % inp),
+        ('err_untouched', P11, 'r is Err ==> %s == %s && final(self).score() == old(self).score() && final(self).sbuf() == old(self).sbuf()' % (out_new, out_old)),
+        ('ok_bytes', P8, 'r is Ok ==> (final(self).score(), final(self).sbuf(), %s) == %s' % (out_new, W)),
+    ]
+
+
 def stream_trait():
     return Sel('trait StreamCipher', members=STREAM_MEMBERS, fns={
         'try_apply_keystream_inout': FnC(ret='r', props=P8 + P11, requires=['old(self).swf()', 'buf.wf()'], ensures=ens('buf')),
-    }, drop_fns=['try_apply_keystream', 'apply_keystream_inout', 'apply_keystream', 'apply_keystream_b2b'])
+        # the slice-based front-ends users call
+        'try_apply_keystream': FnC(ret='r', props=P8 + P11, requires=['old(self).swf()'],
+                                   ensures=_slice_ens('old(buf)@', 'old(buf)@', 'final(buf)@')),
+        'apply_keystream_inout': FnC(props=P8 + P11, requires=['old(self).swf()', 'buf.wf()', 'old(self).sfits(buf.out_cur().len() as int)'], ensures=[
+            ('wf_kept', P8, 'final(self).swf() && final(self).sstep() == old(self).sstep()'),
+            ('bytes', P8, '(final(self).score(), final(self).sbuf(), buf.out_fut()) == wks_run(old(self).sstep(), old(self).score(), old(self).sbuf(), buf.in_val())')]),
+        'apply_keystream': FnC(props=P8 + P11, requires=['old(self).swf()', 'old(self).sfits(old(buf)@.len() as int)'], ensures=[
+            ('wf_kept', P8, 'final(self).swf() && final(self).sstep() == old(self).sstep()'),
+            ('bytes', P8, '(final(self).score(), final(self).sbuf(), final(buf)@) == wks_run(old(self).sstep(), old(self).score(), old(self).sbuf(), old(buf)@)')]),
+        'apply_keystream_b2b': FnC(ret='r', external_body=True, props=P8 + P11 + ('C13',), requires=['old(self).swf()'],
+                                   note='`.and_then(|buf| self.try_apply_keystream_inout(buf))`: closure capturing &mut self is outside this Verus; assumed, exercised by the stream harnesses', ensures=[
+            ('wf_kept', P8, 'final(self).swf() && final(self).sstep() == old(self).sstep()'),
+            ('reject_unequal', ('C13',), 'input@.len() != old(output)@.len() ==> r is Err && final(output)@ == old(output)@ && final(self).score() == old(self).score() && final(self).sbuf() == old(self).sbuf()'),
+            ('ok_iff_fits', P11, 'input@.len() == old(output)@.len() ==> (r is Ok <==> old(self).sfits(input@.len() as int))'),
+            ('err_untouched', P11, 'r is Err ==> final(output)@ == old(output)@ && final(self).score() == old(self).score() && final(self).sbuf() == old(self).sbuf()'),
+            ('ok_bytes', P8, 'r is Ok ==> (final(self).score(), final(self).sbuf(), final(output)@) == wks_run(old(self).sstep(), old(self).score(), old(self).sbuf(), input@)')]),
+    })
 
 
 WRAPPER_MEMBERS = '''
